@@ -5,6 +5,7 @@ import (
 	"go/constant"
 	"go/token"
 	"go/types"
+	"regexp"
 	"sort"
 	"strings"
 
@@ -150,6 +151,16 @@ func rawShortName(fn *ssa.Function) string {
 }
 
 // resolveRoles binds every role whose name is missing to its best structural match.
+// sigShape is a signature string with the names of the module's own types blanked out: a function whose
+// parameter type was renamed (map[visit]bool -> map[pathEntry]bool) keeps its shape.
+var moduleTypeRe = regexp.MustCompile(regexp.QuoteMeta(modPath) + `(/[A-Za-z0-9_/]+)?\.[A-Za-z_][A-Za-z0-9_]*`)
+
+func sigShape(sig string) string {
+	return moduleTypeRe.ReplaceAllStringFunc(sig, func(m string) string {
+		return m[:strings.LastIndex(m, ".")] + ".T"
+	})
+}
+
 func (p *Prog) resolveRoles() {
 	taken := map[*ssa.Function]bool{}
 	for _, fn := range p.Funcs {
@@ -210,7 +221,11 @@ func (p *Prog) resolveRoles() {
 				continue
 			}
 			recv, sig := sigString(fn)
-			if recv != want.Recv || sig != want.Sig {
+			if recv != want.Recv {
+				continue
+			}
+			if sig != want.Sig && sigShape(sig) != sigShape(want.Sig) {
+				// the same signature up to the names of module types (a renamed helper type in a parameter)
 				continue
 			}
 			// same package as the role
